@@ -292,10 +292,6 @@ func truncate(s string, n int) string {
 	return s
 }
 
-func tryReplay(cf *checkFlags, eng *Eng, ob *Obligation, rp map[string]interface{}) (bool, string) {
-	return false, "no replay harness for this obligation kind yet; solver output attached"
-}
-
 func writeEvidence(cf *checkFlags, prop string, nObl, nDis, nViol int, funcs, assumed, abstracted, trusted, undecided, known []string,
 	obs []obReport, solverSecs map[string]float64, solverCnt map[string]int, wall float64, eng *Eng) {
 	if prop == "" || cf.fn != "" {
